@@ -153,6 +153,7 @@ def r4_objective(ctx):
     import sympy as sp
     from ..normalform import Normalizer, equal, NFUnsupported
 
+    import re as _re
     ctx.rule("C17.R4", "scipy objective and scaling wiring", 5)
     ix = ctx.ix
     o = ix.func(SC, "ScipyMinimizeAlgorithm.obj_no_jac", "C17.R4")
@@ -185,6 +186,11 @@ def r4_objective(ctx):
     ps = " ".join(pl)
     if ok:
         ctx.ok("C17.R4", p, p.node, "start = scaled current individual values of this state; result = unscaled optimiser output for the same state and scaling", construct="start and returned point")
+    elif any(_re.search(r"unscaling\((?!.*\.x\b)", ln) for ln in pl if "unscaling(" in ln) or any(ln.startswith("if ") and ".success" in ln and not ("logger" in ln) for ln in pl):
+        # the point handed back is not (always) the optimiser's last iterate `res.x`: a replacement chosen when the solver reports failure
+        # (prior mode, start point ...) can score worse than the start, which the solver's own iterate never does
+        ctx.violation("C17.R4", p, p.node, "the returned point is not the optimiser's last iterate on every path (it is replaced when the solver reports failure / a non-finite value): "
+                      "the replacement can be worse than the start", construct="start and returned point")
     elif all(t in ps for t in ("$k0.unscaling(", "x0=$k0.scaling(", "args=($1, $k0)")):
         ctx.unknown("C17.R4", p, p.node, "the optimiser call is neither the confirmed form nor lacks an essential part: cannot decide statically", construct="start and returned point")
     else:
